@@ -133,8 +133,6 @@ def keyOf (st : St) (e : Ev) : String := if st.part then e.partKey else ""
 
 def seenOf (st : St) (k : String) : List Ev := st.evs.filter fun e => keyOf st e == k
 
-def tsOf (st : St) (id : Nat) : Int := ((st.evs.find? (·.id == id)).map (·.ts)).getD 0
-
 def isPrefix : List Nat → List Nat → Bool
   | [], _ => true
   | _ :: _, [] => false
@@ -154,15 +152,8 @@ def judgeOnce (st : St) (afterFlush : Bool) : String :=
     if afterFlush then em != arr else !isPrefix em arr
   if bad.isEmpty then "" else s!"C12 emitted windows are not the arrivals in order for key(s) {repr bad}"
 
-def tumblingOkB (st : St) (d : Int) (w : List Nat) : Bool :=
-  let ts := w.map (tsOf st)
-  match ts with
-  | [] => true
-  | f :: _ => ts.all (fun t => t < f + d) && (ts.zip (ts.drop 1)).all fun p => p.1 ≤ p.2
-
-def sessionOkB (st : St) (g : Int) (w : List Nat) : Bool :=
-  let ts := w.map (tsOf st)
-  (ts.zip (ts.drop 1)).all fun p => p.1 ≤ p.2 && p.2 - p.1 ≤ g
+/-- the events behind a list of ids (as recorded from the `add` lines) -/
+def evsOfIds (st : St) (w : List Nat) : List Ev := w.map fun id => (st.evs.find? (·.id == id)).getD ⟨id, 0, none⟩
 
 def lookupLast (st : St) (k : String) : Option Int := (st.implLast.find? (·.1 == k)).map (·.2)
 
@@ -179,10 +170,10 @@ def judgeLine (st : St) (op : Op) (em : List (String × List Nat)) (opTime : Opt
      | .add _ => if em.all (fun p => p.2.length == n) then "" else s!"C12 count window closed with a size other than {n}"
      | _ => "")
   | .tumbling d =>
-    if st.inorder && !(em.all fun p => tumblingOkB st d p.2) then
+    if st.inorder && !(em.all fun p => tumblingOkB d (evsOfIds st p.2)) then
       "C12 in-order tumbling window holds an event not earlier than first + duration (or out of order)" else ""
   | .session g =>
-    if st.inorder && !(em.all fun p => sessionOkB st g p.2) then
+    if st.inorder && !(em.all fun p => sessionOkB g (evsOfIds st p.2)) then
       "C12 in-order session window holds a gap larger than the session gap" else ""
   | .sliding size slide =>
     if !st.inorder then "" else
